@@ -384,6 +384,17 @@ def corpus() -> list[str]:
         pe[5:5] = ["handler 0"] * limit              # the slow handlers of the lost connection finish
         # (not a quiescent point: the probe is not compared with a fresh node, but every request of it gets its one answer)
         out.append(cfg + " | " + " | ".join(evs + ["mark overlap:2"] + pe + ["tick"]))
+        # (no persistent peer in the next ones: the clock advances and nothing is to be redialled)
+        cfgn = cfg.replace(f"peer:peer2.x,{REALM},1,1,5", f"peer:peer2.x,{REALM},0,0,5")
+        # a connection the node turns down (CER of a host it does not know: 3010, closed once the CEA has been flushed --
+        # the close happens inside the I/O loop's locked section), then the probe
+        evs = ["start", "acc", "rx 0 " + nodegen.cer("stranger.x", "4", 531, 532), "tick",
+               f"mark probe:1:0:{limit}:t:700"] + probe_events(1, 0, limit, "t", 700)
+        out.append(cfgn + " | " + " | ".join(evs))
+        # more than the statistics window (1000 s) between two connections of one peer
+        evs = ["start", "acc", f"rx 0 {cer1}", "rx 0 " + nodegen.ccr(533, 534), "handler 0", "tick", "eof 0", "tick", "adv 1100", "tick",
+               f"mark probe:1:1:{limit}:t:700:peer1.x"] + probe_events(1, 1, limit, "t", 700, "peer1.x")
+        out.append(cfgn + " | " + " | ".join(evs))
         # requests that sat in the receive queue for longer than the slot wait while every slot was busy
         # (no persistent peer here: the clock advances and nothing is to be redialled)
         cfgq = cfg.replace(f"peer:peer2.x,{REALM},1,1,5", f"peer:peer2.x,{REALM},0,0,5")
